@@ -2,7 +2,7 @@
 //@ props C02
 //@@ verus-args --rlimit 40
 //@@ depends partitions
-//@@ fnprops C04 lemma_done_stable canary_morphism_contract lemma_track_step lemma_img_rng lemma_conn_cong lemma_conn_homog lemma_conn_base lemma_pop lemma_skip lemma_unite_step lemma_queue_push lemma_ci_pop lemma_good_images lemma_ci_push lemma_ci_none lemma_fold_result lemma_walk_rng lemma_img_involution lemma_pull_back lemma_minimal_iff_only_trivial canary_is_minimal_contract canary_fold_contract canary_connected_is_satisfiable
+//@@ fnprops C04 lemma_done_stable canary_morphism_contract lemma_track_step lemma_img_rng lemma_conn_cong lemma_conn_homog lemma_conn_base lemma_pop lemma_skip lemma_unite_step lemma_queue_push lemma_ci_pop lemma_good_images lemma_ci_push lemma_ci_none lemma_fold_result lemma_walk_rng lemma_img_involution lemma_pull_back lemma_minimal_iff_only_trivial canary_is_minimal_contract canary_fold_contract canary_connected_is_satisfiable lemma_jchain_rng lemma_jchain_cons lemma_jchain_sym lemma_jchain_trans lemma_joined_equiv lemma_least lemma_jrep lemma_jchain_cong lemma_join_good lemma_walk_cong lemma_coarsest lemma_mi_step lemma_mi_back lemma_mi_commutes canary_minimal_image_contract canary_join_is_satisfiable
 //@@ fnprops C01 canary_from_str_contract
 //@@ fnprops C02 lemma_iter_ij_range lemma_step_ij_injective lemma_iter_ij_cancel lemma_r_bound canary_default_r_contract
 //@@ fnprops C05 canary_cover_contract lemma_fibres lemma_sheet lemma_compose lemma_bop lemma_xor1 lemma_xor1_inj
@@ -2997,6 +2997,7 @@ proof fn lemma_r_bound<S: DSet>(ds: &S, i: int, j: int, d: usize, n: nat)
 //@ rw R16 /-> Option<usize>/-> (res: Option<usize>)/
 //@ rw R12 /let mut r = 0;/let mut r: usize = 0;/
 //@ rw R5 /this\.walk\(e, \[i, j\]\)/__walk2(this, e, i, j)/
+#[verifier::spinoff_prover]
 #[verifier::exec_allows_no_decreases_clause]
     pub fn r<S: DSet>(this: &S, i: usize, j: usize, d: usize) -> (res: Option<usize>)
     requires this.wf()
@@ -3105,13 +3106,15 @@ pub open spec fn homogeneous<S: DSet>(ds: &S, r: spec_fn(usize) -> usize) -> boo
     forall|x: usize, y: usize| rng(ds, x) && rng(ds, y) && #[trigger] same_r(r, x, y) ==> deg_eq(ds, x, y)
 }
 
-pub open spec fn refines(r0: spec_fn(usize) -> usize, r: spec_fn(usize) -> usize) -> bool {
-    forall|x: usize, y: usize| #[trigger] same_r(r0, x, y) ==> r(x) == r(y)
+// representatives of chambers are chambers
+pub open spec fn range_closed<S: DSet>(ds: &S, r: spec_fn(usize) -> usize) -> bool { forall|x: usize| rng(ds, x) ==> rng(ds, #[trigger] r(x)) }
+pub open spec fn refines<S: DSet>(ds: &S, r0: spec_fn(usize) -> usize, r: spec_fn(usize) -> usize) -> bool {
+    forall|x: usize, y: usize| rng(ds, x) && rng(ds, y) && #[trigger] same_r(r0, x, y) ==> r(x) == r(y)
 }
 
 // a degree-respecting congruence above r0 that identifies d and e
 pub open spec fn good<S: DSet>(ds: &S, q: spec_fn(usize) -> usize, r0: spec_fn(usize) -> usize, d: usize, e: usize) -> bool {
-    congruence(ds, q) && homogeneous(ds, q) && q(d) == q(e) && refines(r0, q)
+    congruence(ds, q) && homogeneous(ds, q) && q(d) == q(e) && refines(ds, r0, q)
 }
 
 // connectivity generated over the base equivalence r0 by a history of identified pairs
@@ -3164,7 +3167,7 @@ proof fn lemma_img_rng<S: DSet>(ds: &S, i: int, x: usize)
 // x ~ y in the closure  ==>  their images under every operation are identified by rf, provided the images of every generating
 // pair are (induction over the history)
 proof fn lemma_conn_cong<S: DSet>(ds: &S, r0: spec_fn(usize) -> usize, rf: spec_fn(usize) -> usize, h: Seq<(usize, usize)>, x: usize, y: usize)
-    requires ds.wf(), base_complete(ds), congruence(ds, r0), refines(r0, rf), links_ok(ds, rf, h), rng(ds, x), rng(ds, y), conn_from(r0, h, x, y)
+    requires ds.wf(), base_complete(ds), congruence(ds, r0), refines(ds, r0, rf), links_ok(ds, rf, h), rng(ds, x), rng(ds, y), conn_from(r0, h, x, y)
     ensures cong_at(ds, rf, x, y)
     decreases h.len()
 {
@@ -3173,6 +3176,7 @@ proof fn lemma_conn_cong<S: DSet>(ds: &S, r0: spec_fn(usize) -> usize, rf: spec_
         assert(cong_at(ds, r0, x, y));
         assert forall|i: int| 0 <= i <= ds.sdim() implies rf(#[trigger] img(ds, i, x)) == rf(img(ds, i, y)) by {
             assert(r0(img(ds, i, x)) == r0(img(ds, i, y)));
+            lemma_img_rng(ds, i, x); lemma_img_rng(ds, i, y);
             assert(same_r(r0, img(ds, i, x), img(ds, i, y)));
         }
     } else {
@@ -3411,7 +3415,7 @@ proof fn lemma_fold_result<S: DSet>(ds: &S, r0: spec_fn(usize) -> usize, rf: spe
         lemma_conn_base(r0, h, x, y);
         assert(same_r(rf, x, y) <==> conn_from(r0, h, x, y));
     }
-    assert(refines(r0, rf));
+    assert(refines(ds, r0, rf));
     assert forall|k: int| 0 <= k < h.len() implies rng(ds, (#[trigger] h[k]).0) && rng(ds, h[k].1) && cong_at(ds, rf, h[k].0, h[k].1) && deg_eq(ds, h[k].0, h[k].1) by {
         assert forall|j: int| 0 <= j <= ds.sdim() implies rf(#[trigger] img(ds, j, h[k].0)) == rf(img(ds, j, h[k].1)) by {
             assert(coq(ds, rf, emp, h[k].0, h[k].1, j));
@@ -3451,6 +3455,7 @@ pub open spec fn foldable<S: DSet>(ds: &S, d: usize) -> bool {
     ensures
         // Some(p): p is a degree-respecting congruence above p0 that identifies d and e
         res.is_some() ==> good(this, repf(&res.unwrap()), repf(p0), d, e),
+        res.is_some() && range_closed(this, repf(p0)) ==> range_closed(this, repf(&res.unwrap())),
         // None: no such congruence exists at all
         res.is_none() ==> forall|q: spec_fn(usize) -> usize| !#[trigger] good(this, q, repf(p0), d, e),
     {
@@ -3474,6 +3479,10 @@ pub open spec fn foldable<S: DSet>(ds: &S, d: usize) -> bool {
                 assert(queue@[0] == (d0, e0));
                 assert(in_q(queue@, d0, e0));
                 assert(tracks_from(r0, repf(&p), h));
+                if range_closed(this, r0) {
+                    let rp = repf(&p);
+                    assert forall|x: usize| rng(this, x) implies rng(this, #[trigger] rp(x)) by { assert(rp(x) == r0(x)); }
+                }
                 assert(complete_inv(this, r0, d0, e0, h, queue@)) by {
                     assert forall|q: spec_fn(usize) -> usize| #[trigger] good(this, q, r0, d0, e0) implies q_ident(q, h) && q_ident(q, queue@) by { }
                 }
@@ -3489,6 +3498,7 @@ pub open spec fn foldable<S: DSet>(ds: &S, d: usize) -> bool {
                     complete_inv(this, r0, d0, e0, h, queue@),
                     conn_from(r0, h, d0, e0) || in_q(queue@, d0, e0),
                     qg == queue@,
+                    range_closed(this, r0) ==> range_closed(this, repf(&p)),
                 ensures
                     queue@.len() == 0,
             {
@@ -3521,6 +3531,13 @@ pub open spec fn foldable<S: DSet>(ds: &S, d: usize) -> bool {
                         h = hb.push((d, e));
                         assert(united_u(ra, repf(&p), d, e));
                         lemma_track_step(r0, ra, repf(&p), hb, d, e);
+                        if range_closed(this, r0) {
+                            let rb = repf(&p);
+                            assert forall|x: usize| rng(this, x) implies rng(this, #[trigger] rb(x)) by {
+                                assert(rb(x) == (if ra(x) == ra(d) || ra(x) == ra(e) { rb(d) } else { ra(x) }));
+                                assert(rng(this, ra(x)) && rng(this, ra(d)) && rng(this, ra(e)));
+                            }
+                        }
                         lemma_unite_step(this, ra, repf(&p), queue@, hb, d, e);
                         assert(h.drop_last() =~= hb);
                         assert(pairs_ok(this, h)) by { assert forall|k: int| 0 <= k < h.len() implies rng(this, (#[trigger] h[k]).0) && rng(this, h[k].1) && deg_eq(this, h[k].0, h[k].1) by { if k < hb.len() { assert(h[k] == hb[k]); } } }
@@ -3536,6 +3553,7 @@ pub open spec fn foldable<S: DSet>(ds: &S, d: usize) -> bool {
                             h.len() > 0, h.last() == (d, e),
                             tracks_from(r0, repf(&p), h),
                             pairs_ok(this, h), pairs_ok(this, queue@),
+                            range_closed(this, r0) ==> range_closed(this, repf(&p)),
                             closed_or_queued(this, repf(&p), queue@, h, i as int, None),
                             complete_inv(this, r0, d0, e0, h, queue@),
                             conn_from(r0, h, d0, e0) || in_q(queue@, d0, e0),
@@ -3615,7 +3633,7 @@ proof fn lemma_img_involution<S: DSet>(ds: &S, i: int, x: usize)
 // a congruence that identifies two different chambers pulls back, along a path from chamber 1, to one that identifies chamber 1 with another chamber
 proof fn lemma_pull_back<S: DSet>(ds: &S, q: spec_fn(usize) -> usize, p: Seq<int>, y: usize) -> (z: usize)
     requires ds.wf(), base_complete(ds), congruence(ds, q), path_ok(ds, p), rng(ds, y), q(walk(ds, p, 1)) == q(y)
-    ensures rng(ds, z), q(1) == q(z), z == 1 ==> y == walk(ds, p, 1)
+    ensures rng(ds, z), q(1) == q(z), z == 1 ==> y == walk(ds, p, 1), walk(ds, p, z) == y
     decreases p.len()
 {
     lemma_bop(ds);
@@ -3636,10 +3654,11 @@ proof fn lemma_pull_back<S: DSet>(ds: &S, q: spec_fn(usize) -> usize, p: Seq<int
         assert(cong_at(ds, q, x, y));
         assert(q(img(ds, i, x)) == q(img(ds, i, y)));
         let z = lemma_pull_back(ds, q, p1, y1);
+        assert(img(ds, i, y1) == y);
         if z == 1 {
             assert(y1 == x1);
-            assert(img(ds, i, y1) == y);
         }
+        assert(walk(ds, p, z) == img(ds, i, walk(ds, p1, z)));
         z
     }
 }
@@ -3655,7 +3674,7 @@ proof fn lemma_minimal_iff_only_trivial<S: DSet>(ds: &S)
                 let p = choose|p: Seq<int>| path_ok(ds, p) && #[trigger] walk(ds, p, 1) == x;
                 let z = lemma_pull_back(ds, q, p, y);
                 assert(z != 1);
-                assert(refines(id_r(), q));
+                assert(refines(ds, id_r(), q));
                 assert(good(ds, q, id_r(), 1, z));
                 assert(foldable(ds, z));
             }
@@ -3700,8 +3719,8 @@ proof fn lemma_minimal_iff_only_trivial<S: DSet>(ds: &S)
             let __f = fold(this, &p, 1, d);
             proof {
                 assert forall|q: spec_fn(usize) -> usize| #[trigger] good(this, q, repf(&p), 1, d) <==> good(this, q, id_r(), 1, d) by {
-                    assert(refines(repf(&p), q));
-                    assert(refines(id_r(), q));
+                    assert(refines(this, repf(&p), q));
+                    assert(refines(this, id_r(), q));
                 }
                 if __f.is_some() {
                     assert(good(this, repf(&__f.unwrap()), repf(&p), 1, d));
@@ -3727,6 +3746,537 @@ proof fn lemma_minimal_iff_only_trivial<S: DSet>(ds: &S)
         }
         __b
     }
+//@ end
+
+// ---------------------------------------------------------------------------------------------------------
+// C04: the join of two degree-respecting congruences is one (needed for "coarsest"): x and y are joined when a chain of chambers leads
+// from x to y in which consecutive chambers are identified by q or by r
+// ---------------------------------------------------------------------------------------------------------
+pub open spec fn jlink<S: DSet>(ds: &S, q: spec_fn(usize) -> usize, r: spec_fn(usize) -> usize, z: usize, y: usize) -> bool {
+    rng(ds, z) && rng(ds, y) && (q(z) == q(y) || r(z) == r(y))
+}
+pub open spec fn jchain<S: DSet>(ds: &S, q: spec_fn(usize) -> usize, r: spec_fn(usize) -> usize, x: usize, y: usize, n: nat) -> bool
+    decreases n
+{
+    if n == 0 { x == y } else { exists|z: usize| jchain(ds, q, r, x, z, (n - 1) as nat) && #[trigger] jlink(ds, q, r, z, y) }
+}
+pub open spec fn joined<S: DSet>(ds: &S, q: spec_fn(usize) -> usize, r: spec_fn(usize) -> usize, x: usize, y: usize) -> bool {
+    exists|n: nat| #[trigger] jchain(ds, q, r, x, y, n)
+}
+pub open spec fn jleast<S: DSet>(ds: &S, q: spec_fn(usize) -> usize, r: spec_fn(usize) -> usize, x: usize, y: usize) -> bool {
+    joined(ds, q, r, x, y) && forall|y2: usize| #[trigger] joined(ds, q, r, x, y2) ==> y <= y2
+}
+// representative function of the join: the least chamber joined to x
+pub open spec fn jrep<S: DSet>(ds: &S, q: spec_fn(usize) -> usize, r: spec_fn(usize) -> usize) -> spec_fn(usize) -> usize {
+    |x: usize| choose|y: usize| jleast(ds, q, r, x, y)
+}
+
+proof fn lemma_jchain_rng<S: DSet>(ds: &S, q: spec_fn(usize) -> usize, r: spec_fn(usize) -> usize, x: usize, y: usize, n: nat)
+    requires jchain(ds, q, r, x, y, n), rng(ds, x)
+    ensures rng(ds, y)
+{
+    if n > 0 { let z = choose|z: usize| jchain(ds, q, r, x, z, (n - 1) as nat) && #[trigger] jlink(ds, q, r, z, y); }
+}
+
+// prepend a link
+proof fn lemma_jchain_cons<S: DSet>(ds: &S, q: spec_fn(usize) -> usize, r: spec_fn(usize) -> usize, x: usize, z: usize, y: usize, n: nat)
+    requires jlink(ds, q, r, x, z), jchain(ds, q, r, z, y, n)
+    ensures jchain(ds, q, r, x, y, n + 1)
+    decreases n
+{
+    if n == 0 {
+        assert(jchain(ds, q, r, x, x, 0));
+        assert(jlink(ds, q, r, x, y));
+    } else {
+        let w = choose|w: usize| jchain(ds, q, r, z, w, (n - 1) as nat) && #[trigger] jlink(ds, q, r, w, y);
+        lemma_jchain_cons(ds, q, r, x, z, w, (n - 1) as nat);
+        assert(jchain(ds, q, r, x, w, n) && jlink(ds, q, r, w, y));
+    }
+}
+
+proof fn lemma_jchain_sym<S: DSet>(ds: &S, q: spec_fn(usize) -> usize, r: spec_fn(usize) -> usize, x: usize, y: usize, n: nat)
+    requires jchain(ds, q, r, x, y, n)
+    ensures jchain(ds, q, r, y, x, n)
+    decreases n
+{
+    if n > 0 {
+        let z = choose|z: usize| jchain(ds, q, r, x, z, (n - 1) as nat) && #[trigger] jlink(ds, q, r, z, y);
+        lemma_jchain_sym(ds, q, r, x, z, (n - 1) as nat);
+        assert(jlink(ds, q, r, y, z));
+        lemma_jchain_cons(ds, q, r, y, z, x, (n - 1) as nat);
+    }
+}
+
+proof fn lemma_jchain_trans<S: DSet>(ds: &S, q: spec_fn(usize) -> usize, r: spec_fn(usize) -> usize, x: usize, y: usize, z: usize, n: nat, m: nat)
+    requires jchain(ds, q, r, x, y, n), jchain(ds, q, r, y, z, m)
+    ensures jchain(ds, q, r, x, z, n + m)
+    decreases m
+{
+    if m > 0 {
+        let w = choose|w: usize| jchain(ds, q, r, y, w, (m - 1) as nat) && #[trigger] jlink(ds, q, r, w, z);
+        lemma_jchain_trans(ds, q, r, x, y, w, n, (m - 1) as nat);
+        assert(jchain(ds, q, r, x, w, (n + m - 1) as nat) && jlink(ds, q, r, w, z));
+    }
+}
+
+proof fn lemma_joined_equiv<S: DSet>(ds: &S, q: spec_fn(usize) -> usize, r: spec_fn(usize) -> usize, x: usize, y: usize, z: usize)
+    ensures joined(ds, q, r, x, x),
+        joined(ds, q, r, x, y) ==> joined(ds, q, r, y, x),
+        joined(ds, q, r, x, y) && joined(ds, q, r, y, z) ==> joined(ds, q, r, x, z),
+{
+    assert(jchain(ds, q, r, x, x, 0));
+    if joined(ds, q, r, x, y) {
+        let n = choose|n: nat| #[trigger] jchain(ds, q, r, x, y, n);
+        lemma_jchain_sym(ds, q, r, x, y, n);
+        if joined(ds, q, r, y, z) {
+            let m = choose|m: nat| #[trigger] jchain(ds, q, r, y, z, m);
+            lemma_jchain_trans(ds, q, r, x, y, z, n, m);
+        }
+    }
+}
+
+// well-ordering: a non-empty set of numbers has a least element
+proof fn lemma_least<S: DSet>(ds: &S, q: spec_fn(usize) -> usize, r: spec_fn(usize) -> usize, x: usize, w: usize)
+    requires joined(ds, q, r, x, w)
+    ensures exists|y: usize| jleast(ds, q, r, x, y)
+    decreases w
+{
+    if exists|w2: usize| w2 < w && #[trigger] joined(ds, q, r, x, w2) {
+        let w2 = choose|w2: usize| w2 < w && #[trigger] joined(ds, q, r, x, w2);
+        lemma_least(ds, q, r, x, w2);
+    } else {
+        assert(jleast(ds, q, r, x, w));
+    }
+}
+
+// same representative <==> joined
+proof fn lemma_jrep<S: DSet>(ds: &S, q: spec_fn(usize) -> usize, r: spec_fn(usize) -> usize, x: usize, y: usize)
+    ensures (jrep(ds, q, r)(x) == jrep(ds, q, r)(y)) <==> joined(ds, q, r, x, y), joined(ds, q, r, x, jrep(ds, q, r)(x))
+{
+    lemma_joined_equiv(ds, q, r, x, x, x); lemma_joined_equiv(ds, q, r, y, y, y);
+    lemma_least(ds, q, r, x, x); lemma_least(ds, q, r, y, y);
+    let mx = jrep(ds, q, r)(x); let my = jrep(ds, q, r)(y);
+    assert(jleast(ds, q, r, x, mx) && jleast(ds, q, r, y, my));
+    if joined(ds, q, r, x, y) {
+        lemma_joined_equiv(ds, q, r, x, y, my);
+        lemma_joined_equiv(ds, q, r, x, y, y);
+        lemma_joined_equiv(ds, q, r, y, x, mx);
+        assert(joined(ds, q, r, x, my) && joined(ds, q, r, y, mx));
+    }
+    if mx == my {
+        lemma_joined_equiv(ds, q, r, y, my, my);
+        lemma_joined_equiv(ds, q, r, x, mx, y);
+    }
+}
+
+// chains are carried along every operation, and keep the degrees
+proof fn lemma_jchain_cong<S: DSet>(ds: &S, q: spec_fn(usize) -> usize, r: spec_fn(usize) -> usize, x: usize, y: usize, n: nat, i: int)
+    requires ds.wf(), base_complete(ds), congruence(ds, q), congruence(ds, r), homogeneous(ds, q), homogeneous(ds, r),
+        rng(ds, x), jchain(ds, q, r, x, y, n), 0 <= i <= ds.sdim()
+    ensures jchain(ds, q, r, img(ds, i, x), img(ds, i, y), n), deg_eq(ds, x, y), rng(ds, y)
+    decreases n
+{
+    lemma_img_rng(ds, i, x);
+    if n > 0 {
+        let z = choose|z: usize| jchain(ds, q, r, x, z, (n - 1) as nat) && #[trigger] jlink(ds, q, r, z, y);
+        lemma_jchain_cong(ds, q, r, x, z, (n - 1) as nat, i);
+        lemma_img_rng(ds, i, z); lemma_img_rng(ds, i, y);
+        if q(z) == q(y) { assert(same_r(q, z, y)); assert(cong_at(ds, q, z, y)); } else { assert(same_r(r, z, y)); assert(cong_at(ds, r, z, y)); }
+        assert(jlink(ds, q, r, img(ds, i, z), img(ds, i, y)));
+        assert forall|k: int| 0 <= k < ds.sdim() implies #[trigger] ds.sm(k, k + 1, x as int) == ds.sm(k, k + 1, y as int) by {
+            assert(ds.sm(k, k + 1, x as int) == ds.sm(k, k + 1, z as int));
+            assert(ds.sm(k, k + 1, z as int) == ds.sm(k, k + 1, y as int));
+        }
+    }
+}
+
+// THE JOIN IS A DEGREE-RESPECTING CONGRUENCE above both
+proof fn lemma_join_good<S: DSet>(ds: &S, q: spec_fn(usize) -> usize, r: spec_fn(usize) -> usize)
+    requires ds.wf(), base_complete(ds), congruence(ds, q), congruence(ds, r), homogeneous(ds, q), homogeneous(ds, r)
+    ensures congruence(ds, jrep(ds, q, r)), homogeneous(ds, jrep(ds, q, r)), refines(ds, q, jrep(ds, q, r)), refines(ds, r, jrep(ds, q, r))
+{
+    let j = jrep(ds, q, r);
+    ds.lemma_wf();
+    assert forall|x: usize, y: usize| rng(ds, x) && rng(ds, y) && #[trigger] same_r(j, x, y) implies cong_at(ds, j, x, y) && deg_eq(ds, x, y) by {
+        lemma_jrep(ds, q, r, x, y);
+        let n = choose|n: nat| #[trigger] jchain(ds, q, r, x, y, n);
+        lemma_jchain_cong(ds, q, r, x, y, n, 0);
+        assert forall|i: int| 0 <= i <= ds.sdim() implies j(#[trigger] img(ds, i, x)) == j(img(ds, i, y)) by {
+            lemma_jchain_cong(ds, q, r, x, y, n, i);
+            lemma_jrep(ds, q, r, img(ds, i, x), img(ds, i, y));
+        }
+    }
+    assert forall|x: usize, y: usize| rng(ds, x) && rng(ds, y) && #[trigger] same_r(q, x, y) implies j(x) == j(y) by {
+        assert(jchain(ds, q, r, x, x, 0)); assert(jlink(ds, q, r, x, y)); assert(jchain(ds, q, r, x, y, 1));
+        lemma_jrep(ds, q, r, x, y);
+    }
+    assert forall|x: usize, y: usize| rng(ds, x) && rng(ds, y) && #[trigger] same_r(r, x, y) implies j(x) == j(y) by {
+        assert(jchain(ds, q, r, x, x, 0)); assert(jlink(ds, q, r, x, y)); assert(jchain(ds, q, r, x, y, 1));
+        lemma_jrep(ds, q, r, x, y);
+    }
+}
+
+// ---------------------------------------------------------------------------------------------------------
+// C04: minimal_image -- "a symbol onto which the input maps by a chamber map that commutes with all operations", whose fibres are
+// the classes of a degree-respecting congruence.  (That this congruence is the COARSEST one, and the degrees of the image, are decided
+// by the bounded stand-in only.)
+// ---------------------------------------------------------------------------------------------------------
+// q is a degree-respecting congruence
+pub open spec fn dr<S: DSet>(ds: &S, q: spec_fn(usize) -> usize) -> bool { congruence(ds, q) && homogeneous(ds, q) }
+// whatever any degree-respecting congruence merges with chamber 1 among the chambers below `upto`, acc merges too
+pub open spec fn below1<S: DSet>(ds: &S, acc: spec_fn(usize) -> usize, upto: int) -> bool {
+    forall|q: spec_fn(usize) -> usize, d: usize| #![trigger dr(ds, q), same_r(q, 1, d)] dr(ds, q) && 2 <= d < upto && d <= ds.ssize() && same_r(q, 1, d) ==> acc(1) == acc(d)
+}
+// acc is the coarsest degree-respecting congruence: every other one refines it
+pub open spec fn coarsest<S: DSet>(ds: &S, acc: spec_fn(usize) -> usize) -> bool {
+    forall|q: spec_fn(usize) -> usize, x: usize, y: usize| #![trigger dr(ds, q), same_r(q, x, y)] dr(ds, q) && rng(ds, x) && rng(ds, y) && same_r(q, x, y) ==> acc(x) == acc(y)
+}
+pub open spec fn mi_inv<S: DSet>(ds: &S, acc: &Partition, upto: int) -> bool {
+    congruence(ds, repf(acc)) && homogeneous(ds, repf(acc)) && range_closed(ds, repf(acc)) && below1(ds, repf(acc), upto)
+}
+
+proof fn lemma_walk_cong<S: DSet>(ds: &S, r: spec_fn(usize) -> usize, p: Seq<int>, a: usize, b: usize)
+    requires ds.wf(), base_complete(ds), congruence(ds, r), path_ok(ds, p), rng(ds, a), rng(ds, b), r(a) == r(b)
+    ensures r(walk(ds, p, a)) == r(walk(ds, p, b)), rng(ds, walk(ds, p, a)), rng(ds, walk(ds, p, b))
+    decreases p.len()
+{
+    if p.len() > 0 {
+        let p1 = p.drop_last();
+        assert(path_ok(ds, p1)) by { assert forall|k: int| 0 <= k < p1.len() implies 0 <= #[trigger] p1[k] <= ds.sdim() by { assert(p1[k] == p[k]); } }
+        lemma_walk_cong(ds, r, p1, a, b);
+        let a1 = walk(ds, p1, a); let b1 = walk(ds, p1, b);
+        assert(0 <= p[p.len() - 1] <= ds.sdim());
+        assert(same_r(r, a1, b1));
+        assert(cong_at(ds, r, a1, b1));
+        lemma_img_rng(ds, p.last(), a1); lemma_img_rng(ds, p.last(), b1);
+        assert(r(img(ds, p.last(), a1)) == r(img(ds, p.last(), b1)));
+    }
+}
+
+// for a symbol connected from chamber 1: merging with chamber 1 everything any congruence merges with chamber 1 makes a congruence coarsest
+proof fn lemma_coarsest<S: DSet>(ds: &S, acc: spec_fn(usize) -> usize)
+    requires ds.wf(), base_complete(ds), connected_from_1(ds), congruence(ds, acc), below1(ds, acc, ds.ssize() + 1)
+    ensures coarsest(ds, acc)
+{
+    lemma_bop(ds);
+    assert forall|q: spec_fn(usize) -> usize, x: usize, y: usize| #![trigger dr(ds, q), same_r(q, x, y)] dr(ds, q) && rng(ds, x) && rng(ds, y) && same_r(q, x, y) implies acc(x) == acc(y) by {
+        let p = choose|p: Seq<int>| path_ok(ds, p) && #[trigger] walk(ds, p, 1) == x;
+        let z = lemma_pull_back(ds, q, p, y);
+        if z != 1 {
+            assert(same_r(q, 1, z));
+            assert(acc(1) == acc(z));
+            lemma_walk_cong(ds, acc, p, 1, z);
+        }
+    }
+}
+
+// one step of minimal_image's fold over the chambers: the closure re-establishes the invariant one chamber further
+proof fn lemma_mi_step<S: DSet>(ds: &S, p: &Partition, d: usize, f: Option<Partition>)
+    requires ds.wf(), base_complete(ds), 2 <= d <= ds.ssize(), mi_inv(ds, p, d as int),
+        f.is_some() ==> good(ds, repf(&f.unwrap()), repf(p), 1, d),
+        f.is_some() ==> range_closed(ds, repf(&f.unwrap())),
+        f.is_none() ==> forall|q: spec_fn(usize) -> usize| !#[trigger] good(ds, q, repf(p), 1, d),
+    ensures mi_inv(ds, if f.is_some() { &f.unwrap() } else { p }, d + 1)
+{
+    let r = repf(p);
+    if f.is_some() {
+        let r2 = repf(&f.unwrap());
+        assert forall|q: spec_fn(usize) -> usize, d2: usize| #![trigger dr(ds, q), same_r(q, 1, d2)] dr(ds, q) && 2 <= d2 < d + 1 && d2 <= ds.ssize() && same_r(q, 1, d2) implies r2(1) == r2(d2) by {
+            if d2 < d { assert(r(1) == r(d2)); assert(same_r(r, 1, d2)); assert(rng(ds, 1) && rng(ds, d2)); }
+        }
+    } else {
+        assert forall|q: spec_fn(usize) -> usize, d2: usize| #![trigger dr(ds, q), same_r(q, 1, d2)] dr(ds, q) && 2 <= d2 < d + 1 && d2 <= ds.ssize() && same_r(q, 1, d2) implies r(1) == r(d2) by {
+            if d2 == d {
+                // the join of q and the accumulated congruence would be a congruence above it that merges 1 and d: fold would have found it
+                lemma_join_good(ds, q, r);
+                let j = jrep(ds, q, r);
+                assert(rng(ds, 1) && rng(ds, d));
+                assert(j(1) == j(d));
+                assert(good(ds, j, r, 1, d));
+            }
+        }
+    }
+}
+// R5: `(lo..=hi).fold(init, f)` by its std semantics, in the form of an invariant rule (inv holds for init, every call of f on an
+// accumulator satisfying inv is allowed and re-establishes inv: then inv holds for the result)
+#[verifier::external_body]
+fn __fold_partitions<S: DSet, F: Fn(Partition, usize) -> Partition>(Ghost(ds): Ghost<&S>, lo: usize, hi: usize, init: Partition, f: F) -> (r: Partition)
+    requires lo <= hi + 1, mi_inv(ds, &init, lo as int),
+        forall|acc: Partition, d: usize| lo <= d <= hi && mi_inv(ds, &acc, d as int) ==> #[trigger] f.requires((acc, d)),
+        forall|acc: Partition, d: usize, out: Partition| lo <= d <= hi && mi_inv(ds, &acc, d as int) && #[trigger] f.ensures((acc, d), out) ==> mi_inv(ds, &out, d + 1),
+    ensures mi_inv(ds, &r, hi + 1)
+{ (lo..=hi).fold(init, f) }
+
+// f is a quotient map of ds onto res: onto, commutes with every operation, and its fibres are the classes of a degree-respecting congruence
+pub open spec fn quotient_map<S: DSet>(ds: &S, res: &PartialDSym, f: Seq<usize>) -> bool {
+    &&& f.len() == ds.ssize() + 1 && res.dset.dim == ds.sdim()
+    &&& forall|d: int| 1 <= d <= ds.ssize() ==> 1 <= #[trigger] f[d] <= res.dset.size
+    &&& forall|k: int| #[trigger] is_image(res, k) ==> exists|d: int| 1 <= d <= ds.ssize() && #[trigger] f[d] == k
+    &&& forall|i: int, d: int| 0 <= i <= ds.sdim() && 1 <= d <= ds.ssize() ==> #[trigger] res.dset.t(i, f[d] as int) == f[bop(ds, i, d)]
+    &&& forall|x: usize, y: usize| rng(ds, x) && rng(ds, y) && #[trigger] f[x as int] == #[trigger] f[y as int] ==> deg_eq(ds, x, y)
+}
+
+pub open spec fn is_image(res: &PartialDSym, k: int) -> bool { 1 <= k <= res.dset.size }
+// no degree-respecting congruence of ds separates less than f does: f is the quotient by the coarsest one
+pub open spec fn smallest_quotient<S: DSet>(ds: &S, f: Seq<usize>) -> bool {
+    forall|q: spec_fn(usize) -> usize, x: usize, y: usize| #![trigger dr(ds, q), same_r(q, x, y)] dr(ds, q) && rng(ds, x) && rng(ds, y) && same_r(q, x, y) ==> f[x as int] == f[y as int]
+}
+// C04: f maps ds onto res commuting with every operation, with the classes of a degree-respecting congruence as fibres; for a symbol
+// connected from chamber 1 it is the coarsest one, so that res is the smallest quotient of that kind
+pub open spec fn mi_post<S: DSet>(ds: &S, res: &PartialDSym, f: Seq<usize>) -> bool {
+    quotient_map(ds, res, f) && (connected_from_1(ds) ==> smallest_quotient(ds, f))
+}
+// the numbering loop of minimal_image: classes are numbered 1, 2, ... in the order of their first members
+pub open spec fn mi_numbering<S: DSet>(ds: &S, p: &Partition, s2i: Seq<usize>, i2s: Seq<usize>, next: int, upto: int) -> bool {
+    &&& s2i.len() == ds.ssize() + 1 && i2s.len() == ds.ssize() + 1 && 1 <= next <= upto
+    // an assigned chamber has the number of its class, whose representative is recorded
+    &&& forall|e: int| 1 <= e <= ds.ssize() && #[trigger] s2i[e] != 0 ==> 1 <= s2i[e] < next && i2s[s2i[e] as int] == p.erep(e as usize)
+    // every number in use belongs to a representative that carries it
+    &&& forall|k: int| 1 <= k < next ==> 1 <= #[trigger] i2s[k] <= ds.ssize() && p.erep(i2s[k]) == i2s[k] && s2i[i2s[k] as int] == k
+    // the chambers below `upto` are assigned
+    &&& forall|j: int| 1 <= j < upto ==> #[trigger] s2i[j] != 0 && s2i[p.erep(j as usize) as int] == s2i[j]
+}
+
+// the image of d' under operation i leads back: op'(i, op'(i, d')) == d' in the quotient numbering
+proof fn lemma_mi_back<S: DSet>(ds: &S, p: &Partition, f: Seq<usize>, i2s: Seq<usize>, nn: int, i: int, d: int)
+    requires ds.wf(), base_complete(ds), congruence(ds, repf(p)), mi_numbering(ds, p, f, i2s, nn + 1, ds.ssize() + 1), 0 <= i <= ds.sdim(), 1 <= d <= nn
+    ensures ({
+        let e = f[bop(ds, i, i2s[d] as int)] as int;
+        1 <= e <= nn && f[bop(ds, i, i2s[e] as int)] == d
+    })
+{
+    lemma_bop(ds);
+    let x = i2s[d] as int;
+    assert(1 <= x <= ds.ssize() && f[x] == d);
+    let y = bop(ds, i, x);
+    assert(1 <= y <= ds.ssize() && bop(ds, i, y) == x);
+    assert(f[y] != 0);
+    let e = f[y] as int;
+    let y2 = i2s[e] as int;          // the representative of y
+    assert(y2 == p.erep(y as usize));
+    assert(1 <= y2 <= ds.ssize() && p.erep(y2 as usize) == y2);
+    assert(same_r(repf(p), y2 as usize, y as usize));
+    assert(cong_at(ds, repf(p), y2 as usize, y as usize));
+    assert(img(ds, i, y2 as usize) == bop(ds, i, y2));
+    assert(img(ds, i, y as usize) == bop(ds, i, y));
+    let z = bop(ds, i, y2);
+    assert(1 <= z <= ds.ssize());
+    assert(p.erep(z as usize) == p.erep(x as usize));
+    assert(f[p.erep(z as usize) as int] == f[z]);
+    assert(f[p.erep(x as usize) as int] == f[x]);
+}
+
+// the numbering commutes with every operation
+proof fn lemma_mi_commutes<S: DSet>(ds: &S, p: &Partition, f: Seq<usize>, i2s: Seq<usize>, nn: int, i: int, d: int)
+    requires ds.wf(), base_complete(ds), congruence(ds, repf(p)), mi_numbering(ds, p, f, i2s, nn + 1, ds.ssize() + 1), 0 <= i <= ds.sdim(), 1 <= d <= ds.ssize()
+    ensures 1 <= f[d] <= nn, f[bop(ds, i, i2s[f[d] as int] as int)] == f[bop(ds, i, d)]
+{
+    lemma_bop(ds);
+    assert(f[d] != 0);
+    let d2 = i2s[f[d] as int] as int;      // the representative of d
+    assert(d2 == p.erep(d as usize));
+    assert(1 <= d2 <= ds.ssize() && p.erep(d2 as usize) == d2);
+    assert(same_r(repf(p), d2 as usize, d as usize));
+    assert(cong_at(ds, repf(p), d2 as usize, d as usize));
+    assert(img(ds, i, d2 as usize) == bop(ds, i, d2));
+    assert(img(ds, i, d as usize) == bop(ds, i, d));
+    let z2 = bop(ds, i, d2); let z = bop(ds, i, d);
+    assert(1 <= z2 <= ds.ssize() && 1 <= z <= ds.ssize());
+    assert(f[p.erep(z2 as usize) as int] == f[z2]);
+    assert(f[p.erep(z as usize) as int] == f[z]);
+}
+
+//@ begin src/derived.rs :: - :: fn minimal_image | props=C04
+//@ rw R15 /<T: DSym>/<T: DSet>/
+//@ rw R16 /-> PartialDSym$/-> (res: PartialDSym)/
+//@ rw R11 /ds\.is_minimal\(\)/is_minimal(ds)/
+//@ rw R5+R14 /^([ \t]*)as_partial_dsym\(ds\)$/\1let __c = __as_partial_dsym(ds);\n\1__c/
+//@ rw R5+R14 /^([ \t]*)let p = \(2\.\.=ds\.size\(\)\)\n[ \t]*\.fold\(Partition::new\(\), \|p, d\| ds\.fold\(&p, 1, d\)\.unwrap_or\(p\)\);/\1let __init = Partition::new();\n\1let p = __fold_partitions::<T, _>(Ghost(ds), 2, ds.size(), __init, |p: Partition, d: usize| -> (q: Partition)\n\1{\n\1    let __f = fold(ds, &p, 1, d);\n\1    __f.unwrap_or(p)\n\1});/
+//@ rw R12 /let mut next = 1;/let mut next: usize = 1;/
+//@ rw R10 /for d in 1\.\.=ds\.size\(\)$/for d in 1..(ds.size()) + 1/
+//@ rw R14 /^([ \t]*)build_sym_using_ms\(\n[ \t]*build_set\(\n[ \t]*next - 1,\n[ \t]*ds\.dim\(\),\n[ \t]*\|i, d\| ds\.op\(i, img2src\[d\]\)\.map\(\|e\| src2img\[e\]\)\n[ \t]*\),\n[ \t]*\|i, d\| (.*)\n[ \t]*\)$/\1let __op = |i: usize, d: usize| -> (r: Option<usize>)\n\1{\n\1    ds.op(i, img2src[d]).map(|e: usize| -> (x: usize)\n\1    { src2img[e] })\n\1};\n\1let __set = build_set(next - 1, ds.dim(), __op);\n\1let __r = build_sym_using_ms(__set, |i: usize, d: usize| -> (mm: Option<usize>)\n\1{ \2 });\n\1__r/
+#[verifier::spinoff_prover]
+pub fn minimal_image<T: DSet>(ds: &T) -> (res: PartialDSym)
+    requires ds.wf(), base_complete(ds), ds.ssize() * (ds.sdim() + 1) <= usize::MAX,
+    ensures res.inv(), exists|f: Seq<usize>| mi_post(ds, &res, f),
+{
+    proof { ds.lemma_wf(); lemma_bop(ds); }
+    if is_minimal(ds) {
+        let __c = __as_partial_dsym(ds);
+        proof {
+            // a one-sheeted cover: the identity is the quotient map
+            let f = Seq::new((ds.ssize() + 1) as nat, |d: int| d as usize);
+            assert forall|d: int| 1 <= d <= ds.ssize() implies #[trigger] src_of(d, ds.ssize()) == d by { vstd::arithmetic::div_mod::lemma_small_mod((d - 1) as nat, ds.ssize() as nat); }
+            assert forall|i: int, d: int| 0 <= i <= ds.sdim() && 1 <= d <= ds.ssize() implies #[trigger] __c.dset.t(i, f[d] as int) == f[bop(ds, i, d)] by {
+                let e = __c.dset.t(i, d);
+                assert(1 <= e <= ds.ssize() && src_of(e, ds.ssize()) == bop(ds, i, src_of(d, ds.ssize())));
+                assert(1 <= bop(ds, i, d) <= ds.ssize());
+            }
+            assert forall|k: int| #[trigger] is_image(&__c, k) implies exists|d: int| 1 <= d <= ds.ssize() && #[trigger] f[d] == k by { assert(f[k] == k); }
+            assert(quotient_map(ds, &__c, f));
+            if connected_from_1(ds) {
+                assert(only_trivial_congruence(ds));
+                assert forall|q: spec_fn(usize) -> usize, x: usize, y: usize| #![trigger dr(ds, q), same_r(q, x, y)] dr(ds, q) && rng(ds, x) && rng(ds, y) && same_r(q, x, y) implies f[x as int] == f[y as int] by { }
+                assert(smallest_quotient(ds, f));
+            }
+            assert(mi_post(ds, &__c, f));
+        }
+        __c
+    } else {
+        let __init = Partition::new();
+        proof {
+            let r = repf(&__init);
+            assert forall|x: usize, y: usize| rng(ds, x) && rng(ds, y) && #[trigger] same_r(r, x, y) implies cong_at(ds, r, x, y) && deg_eq(ds, x, y) by { }
+            assert forall|x: usize| rng(ds, x) implies rng(ds, #[trigger] r(x)) by { }
+            assert(below1(ds, r, 2));
+            assert(mi_inv(ds, &__init, 2));
+        }
+        let p = __fold_partitions::<T, _>(Ghost(ds), 2, ds.size(), __init, |p: Partition, d: usize| -> (q: Partition)
+            requires ds.wf(), base_complete(ds), 2 <= d <= ds.ssize(), mi_inv(ds, &p, d as int)
+            ensures mi_inv(ds, &q, d + 1)
+        {
+            let __f = fold(ds, &p, 1, d);
+            proof { lemma_mi_step(ds, &p, d, __f); }
+            __f.unwrap_or(p)
+        });
+
+        let mut src2img = vec![0; ds.size() + 1];
+        let mut img2src = vec![0; ds.size() + 1];
+        let mut next: usize = 1;
+        for d in 1..(ds.size()) + 1
+            invariant ds.wf(), base_complete(ds), mi_inv(ds, &p, ds.ssize() + 1),
+                mi_numbering(ds, &p, src2img@, img2src@, next as int, d as int),
+        {
+            let ghost s0 = src2img@;
+            let ghost i0 = img2src@;
+            let ghost n0 = next as int;
+            let e = p.find(&d);
+            proof {
+                let r = repf(&p);
+                assert(rng(ds, d));
+                assert(rng(ds, r(d)));
+                assert(1 <= e <= ds.ssize());
+            }
+            if src2img[e] == 0 {
+                src2img[e] = next;
+                img2src[next] = e;
+                next += 1;
+            }
+            src2img[d] = src2img[e];
+            proof {
+                let s1 = src2img@; let i1 = img2src@; let n1 = next as int;
+                let k = s1[e as int] as int;
+                assert(s1[d as int] == k && k != 0);
+                if s0[e as int] == 0 { assert(k == n0 && n1 == n0 + 1 && i1[n0] == e); } else { assert(k == s0[e as int] && n1 == n0 && i1 == i0); assert(i0[k] == p.erep(e)); }
+                assert forall|x: int| 1 <= x <= ds.ssize() && #[trigger] s1[x] != 0 implies 1 <= s1[x] < n1 && i1[s1[x] as int] == p.erep(x as usize) by {
+                    if x == d as int || x == e as int { }
+                    else { assert(s1[x] == s0[x]); assert(1 <= s0[x] < n0); assert(i1[s0[x] as int] == i0[s0[x] as int]); }
+                }
+                assert forall|kk: int| 1 <= kk < n1 implies 1 <= #[trigger] i1[kk] <= ds.ssize() && p.erep(i1[kk]) == i1[kk] && s1[i1[kk] as int] == kk by {
+                    if kk < n0 {
+                        assert(i1[kk] == i0[kk]);
+                        assert(s0[i0[kk] as int] == kk);
+                        if i0[kk] == d && d != e { assert(p.erep(d) == d); }
+                    }
+                }
+                assert forall|j: int| 1 <= j < d + 1 implies #[trigger] s1[j] != 0 && s1[p.erep(j as usize) as int] == s1[j] by {
+                    if j < d as int {
+                        assert(s0[j] != 0 && s0[p.erep(j as usize) as int] == s0[j]);
+                        let pj = p.erep(j as usize) as int;
+                        assert(rng(ds, j as usize)); assert(rng(ds, repf(&p)(j as usize)));
+                        if pj == d as int && d != e { assert(s0[pj] != 0); assert(i0[s0[pj] as int] == p.erep(pj as usize)); assert(p.erep(i0[s0[pj] as int]) == i0[s0[pj] as int]); }
+                    }
+                }
+            }
+        }
+
+        let ghost f = src2img@;
+        let ghost nn = (next - 1) as int;
+        proof {
+            assert(f[1] != 0);
+            assert(nn >= 1);
+            assert(nn <= ds.ssize());
+            assert(nn * (ds.sdim() + 1) <= ds.ssize() * (ds.sdim() + 1)) by(nonlinear_arith) requires nn <= ds.ssize(), ds.sdim() >= 0;
+        }
+
+        let __op = |i: usize, d: usize| -> (r: Option<usize>)
+            requires i <= ds.sdim(), 1 <= d <= nn, ds.wf(), base_complete(ds),
+                mi_numbering(ds, &p, src2img@, img2src@, nn + 1, ds.ssize() + 1),
+            ensures r == Some(src2img@[bop(ds, i as int, img2src@[d as int] as int)])
+        {
+            proof { lemma_bop(ds); assert(1 <= img2src@[d as int] <= ds.ssize()); assert(1 <= bop(ds, i as int, img2src@[d as int] as int) <= ds.ssize()); }
+            ds.op(i, img2src[d]).map(|e: usize| -> (x: usize)
+                requires 1 <= e <= ds.ssize(), src2img@.len() == ds.ssize() + 1
+                ensures x == src2img@[e as int]
+            { src2img[e] })
+        };
+        proof {
+            let i2s = img2src@;
+            assert(deterministic(__op, nn as usize, ds.sdim() as usize));
+            assert(consistent(__op, nn as usize, ds.sdim() as usize)) by {
+                assert forall|i: usize, d: usize, e: usize| #![trigger __op.ensures((i, d), Some(e))]
+                    i <= ds.sdim() && 1 <= d <= nn && __op.ensures((i, d), Some(e)) implies 1 <= e <= nn by {
+                    let y = bop(ds, i as int, i2s[d as int] as int);
+                    assert(1 <= i2s[d as int] <= ds.ssize());
+                    assert(1 <= y <= ds.ssize());
+                    assert(f[y] != 0);
+                }
+                assert forall|i: usize, d: usize, e: usize, r: Option<usize>| #![trigger __op.ensures((i, d), Some(e)), __op.ensures((i, e), r)]
+                    i <= ds.sdim() && 1 <= d <= nn && __op.ensures((i, d), Some(e)) && __op.ensures((i, e), r) implies r == Some(d) by {
+                    lemma_mi_back(ds, &p, f, i2s, nn, i as int, d as int);
+                }
+                assert forall|i: usize, a: usize, b: usize, e: usize| #![trigger __op.ensures((i, a), Some(e)), __op.ensures((i, b), Some(e))]
+                    i <= ds.sdim() && 1 <= a <= nn && 1 <= b <= nn && __op.ensures((i, a), Some(e)) && __op.ensures((i, b), Some(e)) implies a == b by {
+                    lemma_mi_back(ds, &p, f, i2s, nn, i as int, a as int);
+                    lemma_mi_back(ds, &p, f, i2s, nn, i as int, b as int);
+                }
+            }
+        }
+        let __set = build_set(next - 1, ds.dim(), __op);
+        proof {
+            assert forall|i: int, d: int| 0 <= i <= ds.sdim() && 1 <= d <= nn implies #[trigger] __set.t(i, d) == f[bop(ds, i, img2src@[d] as int)] && __set.t(i, d) != 0 by {
+                assert(__op.ensures((i as usize, d as usize), __set.vop(i, d)));
+                let y = bop(ds, i, img2src@[d] as int);
+                assert(1 <= img2src@[d] <= ds.ssize());
+                assert(1 <= y <= ds.ssize());
+                assert(f[y] != 0);
+            }
+            assert forall|i: int, d: int| 0 <= i <= __set.dim && 1 <= d <= __set.size implies #[trigger] tbl(__set.op@, __set.dim as int, i, d) != 0 by {
+                assert(__set.t(i, d) != 0);
+            }
+            assert(__set.complete());
+        }
+        let __r = build_sym_using_ms(__set, |i: usize, d: usize| -> (mm: Option<usize>)
+            requires i < ds.sdim(), 1 <= d <= nn, ds.wf(), mi_numbering(ds, &p, src2img@, img2src@, nn + 1, ds.ssize() + 1),
+        { ds.m(i, i + 1, img2src[d]) });
+        proof {
+            let i2s = img2src@;
+            assert forall|i: int, d: int| 0 <= i <= ds.sdim() && 1 <= d <= ds.ssize() implies #[trigger] __r.dset.t(i, f[d] as int) == f[bop(ds, i, d)] by {
+                lemma_mi_commutes(ds, &p, f, i2s, nn, i, d);
+                assert(__r.dset.t(i, f[d] as int) == __set.t(i, f[d] as int));
+            }
+            assert forall|k: int| #[trigger] is_image(&__r, k) implies exists|d: int| 1 <= d <= ds.ssize() && #[trigger] f[d] == k by {
+                assert(f[i2s[k] as int] == k);
+            }
+            assert forall|x: usize, y: usize| rng(ds, x) && rng(ds, y) && #[trigger] f[x as int] == #[trigger] f[y as int] implies deg_eq(ds, x, y) by {
+                assert(f[x as int] != 0 && f[y as int] != 0);
+                assert(i2s[f[x as int] as int] == p.erep(x) && i2s[f[y as int] as int] == p.erep(y));
+                assert(same_r(repf(&p), x, y));
+            }
+            assert(quotient_map(ds, &__r, f));
+            if connected_from_1(ds) {
+                lemma_coarsest(ds, repf(&p));
+                assert forall|q: spec_fn(usize) -> usize, x: usize, y: usize| #![trigger dr(ds, q), same_r(q, x, y)] dr(ds, q) && rng(ds, x) && rng(ds, y) && same_r(q, x, y) implies f[x as int] == f[y as int] by {
+                    assert(p.erep(x) == p.erep(y));
+                    assert(f[p.erep(x) as int] == f[x as int] && f[p.erep(y) as int] == f[y as int]);
+                }
+                assert(smallest_quotient(ds, f));
+            }
+            assert(mi_post(ds, &__r, f));
+        }
+        __r
+    }
+}
 //@ end
 
 // =====================================================================================================
@@ -3757,6 +4307,18 @@ fn canary_default_r_contract<S: DSet>(ds: &S)
 {
     let x = r(ds, 0, 1, 1);
 }
+
+fn canary_minimal_image_contract<S: DSet>(ds: &S)
+    requires ds.wf(), base_complete(ds), connected_from_1(ds), ds.ssize() * (ds.sdim() + 1) <= usize::MAX
+    ensures false
+{
+    let r = minimal_image(ds);
+}
+
+proof fn canary_join_is_satisfiable<S: DSet>(ds: &S, q: spec_fn(usize) -> usize, r: spec_fn(usize) -> usize)
+    requires ds.wf(), base_complete(ds), dr(ds, q), dr(ds, r), ds.ssize() >= 2, jrep(ds, q, r)(1) == jrep(ds, q, r)(2)
+    ensures false
+{}
 
 proof fn canary_partial_dset_invariant_is_satisfiable(ds: PartialDSet)
     requires ds.inv(), ds.size == 2, ds.dim == 2, ds.t(0, 1) == 2
